@@ -415,14 +415,21 @@ Interval<To_Boundary, To_Info>::difference_assign(const From1& x,
       return assign(EMPTY);
     }
     else {
-      rl = complement(LOWER, lower(), info(), UPPER, f_upper(y), f_info(y));
-      ru = Boundary_NS::assign(UPPER, upper(), info(), UPPER, f_upper(x), f_info(x));
+      rl = complement(LOWER, lower(), to_info,
+                      UPPER, f_upper(y), f_info(y));
+      ru = Boundary_NS::assign(UPPER, upper(), to_info,
+                               UPPER, f_upper(x), f_info(x));
     }
   }
   else if (nu) {
-    ru = complement(UPPER, upper(), info(), LOWER, f_lower(y), f_info(y));
-    rl = Boundary_NS::assign(LOWER, lower(), info(),
+    ru = complement(UPPER, upper(), to_info, LOWER, f_lower(y), f_info(y));
+    rl = Boundary_NS::assign(LOWER, lower(), to_info,
                              LOWER, f_lower(x), f_info(x));
+  }
+  else {
+    // `y' lies strictly inside `x': the smallest interval containing
+    // the difference is `x' itself.
+    return assign(x);
   }
   assign_or_swap(info(), to_info);
   PPL_ASSERT(OK());
